@@ -79,7 +79,8 @@ def main():
         pid = args.prop
         mod = importlib.import_module('props.' + pid)
         if args.replay:
-            sys.exit(mod.replay(args.replay))
+            from props import base as _base
+            sys.exit(getattr(mod, 'replay', _base.replay)(args.replay))
 
         prop_v = 'Properties/%s.v' % pid
         ok, log, failed = C.make([prop_v + 'o'], timeout=2400)
@@ -142,6 +143,22 @@ def main():
         out_lines = []
         real = []
         reported_known = set()
+        # replay the stored witness of every listed finding: still failing => KNOWN-FINDING line
+        import witnesses
+        witness_log = {}
+        for kf in known:
+            try:
+                wv = witnesses.check(kf)
+            except Exception as e:  # noqa
+                traceback.print_exc()
+                wv = None
+                witness_log[kf['id']] = 'witness could not be replayed: %s' % e
+            if wv is not None:
+                reported_known.add(kf['id'])
+                out_lines.append('KNOWN-FINDING: property=%s %s' % (pid, kf['what']))
+                witness_log[kf['id']] = 'still fails'
+            else:
+                witness_log.setdefault(kf['id'], 'witness no longer fails')
         for v in violations:
             kf = next((k for k in known if known_match(k, v)), None)
             if kf is not None:
@@ -171,6 +188,7 @@ def main():
             'rule': res.get('rule', ''), 'samples': res.get('samples', [])[:3],
             'input_distribution': res.get('distribution', {}),
             'known_findings_reported': sorted(reported_known),
+            'known_findings_witnesses': witness_log,
             'exhaustive': bool(res.get('exhaustive', False)),
         }
         for k, v in res.get('extra', {}).items():
